@@ -1376,3 +1376,432 @@ Theorem dac_nLevels seqs logr maxseq d :
   dac_wf seqs logr maxseq = true ->
   dac_build (dac_flatten seqs) (dac_llen seqs) logr maxseq = Some d -> d_nLevels d = maxseq.
 Proof. intros H Hb. apply (dac_listLength seqs logr maxseq d H Hb). Qed.
+
+(* ========================================================================= *)
+(* 9. DAC_BVLS                                                                 *)
+(* ========================================================================= *)
+Definition the_bdac (seqs : list (list N)) (nL : nat) : bdac :=
+  {| b_tamCode := LI seqs nL; b_nLevels := N.of_nat nL;
+     b_levelsIndex := map (LI seqs) (seq 0 (S nL));
+     b_levels := cat (level seqs) nL;
+     b_bits := cat (contbits seqs) nL;
+     b_rankLevels := map (RL seqs) (seq 0 nL) |}.
+
+Lemma RL_S seqs j : RL seqs (S j) = RL seqs j + dac_count (contbits seqs j).
+Proof. unfold RL. rewrite cat_S, dac_count_app. reflexivity. Qed.
+
+Lemma RL_le_LI seqs j : RL seqs j <= LI seqs j.
+Proof. unfold RL. rewrite <- (cat_offset seqs (contbits seqs) j (contbits_length seqs)). apply dac_count_le. Qed.
+
+Lemma bdac_layout_spec seqs nL :
+  bdac_layout seqs nL =
+  (map (LI seqs) (seq 0 nL), map (fun j => dac_count (contbits seqs j)) (seq 0 nL),
+   cat (level seqs) nL, cat (contbits seqs) nL).
+Proof.
+  unfold bdac_layout.
+  change (bdac_lvl seqs) with (level seqs). change (bdac_cont seqs) with (contbits seqs).
+  replace (map (fun j => lenN (level seqs j)) (seq 0 nL)) with (map (fun k => N.of_nat (sz seqs k)) (seq 0 nL))
+    by (apply map_ext; intros k; unfold lenN, sz; rewrite level_length; reflexivity).
+  rewrite (prefix_sums_gen (sz seqs) nL 0 0). rewrite firstn_map, firstn_seq.
+  replace (map (fun k : nat => 0 + N.of_nat (sumfrom (sz seqs) 0 k)) (seq 0 nL)) with (map (LI seqs) (seq 0 nL))
+    by (apply map_ext; intros k; unfold LI; lia).
+  reflexivity.
+Qed.
+
+Lemma bdac_copy_spec {F : nat -> N} n : forall k i, (i + k <= n)%nat ->
+  bdac_copy (map F (seq 0 n)) k (N.of_nat i) = Some (map F (seq i k)).
+Proof.
+  induction k as [|k IH]; intros i H; [reflexivity|].
+  cbn [bdac_copy seq map]. rewrite (mapseq_nth F i n) by (reflexivity || lia). cbn [dac_bind].
+  replace (N.of_nat i + 1) with (N.of_nat (S i)) by lia. rewrite IH by lia. reflexivity.
+Qed.
+
+Section BMake.
+  Variable nL : nat.
+  Variable seqs : list (list N).
+  Hypothesis HnL1 : (1 <= nL)%nat.
+  Hypothesis Hbound : LI seqs nL + 1 < dac_U32.
+
+  Lemma bdac_ranks_spec : forall k i, (1 <= i)%nat -> (i + k <= nL)%nat ->
+    bdac_ranks (map (fun j => dac_count (contbits seqs j)) (seq 0 nL)) k (N.of_nat i) (RL seqs (i - 1))
+    = Some (map (RL seqs) (seq i k)).
+  Proof.
+    induction k as [|k IH]; intros i Hi Hik; [reflexivity|].
+    cbn [bdac_ranks seq map].
+    replace (N.of_nat i - 1) with (N.of_nat (i - 1)) by lia.
+    rewrite (mapseq_nth _ (i - 1) nL) by (reflexivity || lia). cbn [dac_bind].
+    pose proof (RL_S seqs (i - 1)) as HS. replace (S (i - 1)) with i in HS by lia.
+    pose proof (RL_le_LI seqs i) as Hle. pose proof (LI_mono seqs i nL ltac:(lia)) as Hm.
+    rewrite dac_add32_small by lia.
+    replace (dac_count (contbits seqs (i - 1)) + RL seqs (i - 1)) with (RL seqs i) by lia.
+    replace (N.of_nat i + 1) with (N.of_nat (S i)) by lia.
+    specialize (IH (S i) ltac:(lia) ltac:(lia)). replace (S i - 1)%nat with i in IH by lia.
+    rewrite IH. reflexivity.
+  Qed.
+
+  Theorem bdac_make_spec extra1 extra2 :
+    bdac_make (LI seqs nL) (N.of_nat nL) (map (LI seqs) (seq 0 nL) ++ extra1)
+      (map (fun j => dac_count (contbits seqs j)) (seq 0 nL) ++ extra2) (cat (level seqs) nL) (cat (contbits seqs) nL)
+    = Some (the_bdac seqs nL).
+  Proof.
+    unfold bdac_make. rewrite Nat2N.id.
+    assert (Hc : bdac_copy (map (LI seqs) (seq 0 nL) ++ extra1) nL 0 = Some (map (LI seqs) (seq 0 nL))).
+    { assert (G : forall k i, (i + k <= nL)%nat ->
+        bdac_copy (map (LI seqs) (seq 0 nL) ++ extra1) k (N.of_nat i) = Some (map (LI seqs) (seq i k))).
+      { induction k as [|k IH]; intros i H; [reflexivity|]. cbn [bdac_copy seq map].
+        rewrite dac_nth_eq, nthN_app_l by (unfold lenN; rewrite map_length, seq_length; lia).
+        rewrite <- dac_nth_eq. rewrite (mapseq_nth (LI seqs) i nL) by (reflexivity || lia). cbn [dac_bind].
+        replace (N.of_nat i + 1) with (N.of_nat (S i)) by lia. rewrite IH by lia. reflexivity. }
+      apply (G nL O). lia. }
+    rewrite Hc. cbn [dac_bind].
+    replace (N.of_nat nL =? 0) with false by (symmetry; apply N.eqb_neq; lia).
+    assert (Hr : bdac_ranks (map (fun j => dac_count (contbits seqs j)) (seq 0 nL) ++ extra2) (nL - 1) 1 0
+                 = Some (map (RL seqs) (seq 1 (nL - 1)))).
+    { assert (G : forall k i, (1 <= i)%nat -> (i + k <= nL)%nat ->
+        bdac_ranks (map (fun j => dac_count (contbits seqs j)) (seq 0 nL) ++ extra2) k (N.of_nat i) (RL seqs (i - 1))
+        = bdac_ranks (map (fun j => dac_count (contbits seqs j)) (seq 0 nL)) k (N.of_nat i) (RL seqs (i - 1))).
+      { induction k as [|k IH]; intros i Hi Hik; [reflexivity|]. cbn [bdac_ranks].
+        rewrite (dac_nth_eq (_ ++ _)), nthN_app_l by (unfold lenN; rewrite map_length, seq_length; lia).
+        rewrite <- dac_nth_eq.
+        replace (N.of_nat i - 1) with (N.of_nat (i - 1)) by lia.
+        rewrite (mapseq_nth _ (i - 1) nL) by (reflexivity || lia). cbn [dac_bind].
+        pose proof (RL_S seqs (i - 1)) as HS. replace (S (i - 1)) with i in HS by lia.
+        pose proof (RL_le_LI seqs i) as Hle. pose proof (LI_mono seqs i nL ltac:(lia)) as Hm.
+        rewrite dac_add32_small by lia.
+        replace (dac_count (contbits seqs (i - 1)) + RL seqs (i - 1)) with (RL seqs i) by lia.
+        replace (N.of_nat i + 1) with (N.of_nat (S i)) by lia.
+        specialize (IH (S i) ltac:(lia) ltac:(lia)). replace (S i - 1)%nat with i in IH by lia.
+        rewrite IH. reflexivity. }
+      specialize (G (nL - 1)%nat 1%nat (le_n _) ltac:(lia)). change (N.of_nat 1) with 1 in G.
+      change (RL seqs (1 - 1)) with 0 in G. rewrite G.
+      pose proof (bdac_ranks_spec (nL - 1) 1 (le_n _) ltac:(lia)) as Hs. change (N.of_nat 1) with 1 in Hs.
+      change (RL seqs (1 - 1)) with 0 in Hs. exact Hs. }
+    rewrite Hr. cbn [dac_bind]. unfold the_bdac. do 2 f_equal.
+    - rewrite seq_S, map_app. reflexivity.
+    - rewrite (seq_head nL HnL1). reflexivity.
+  Qed.
+End BMake.
+
+Lemma bdac_access_loop_eq d fuel j ini acc :
+  bdac_access_loop d fuel j ini acc =
+  (b <- dac_nth (b_bits d) ini ;;
+   if b : bool then
+     match fuel with
+     | O => None
+     | S f =>
+         r <- dac_rank1 (b_bits d) ini ;;
+         rl <- dac_nth (b_rankLevels d) j ;;
+         let rankini := dac_sub32 r rl in
+         let j' := dac_add32 j 1 in
+         li <- dac_nth (b_levelsIndex d) j' ;;
+         let ini' := dac_sub32 (dac_add32 li rankini) 1 in
+         v <- dac_nth (b_levels d) ini' ;;
+         if j' <? b_nLevels d then
+           if j' =? dac_sub32 (b_nLevels d) 1 then Some (acc ++ [v])
+           else bdac_access_loop d f j' ini' (acc ++ [v])
+         else None
+     end
+   else Some acc).
+Proof. destruct fuel; reflexivity. Qed.
+
+Lemma bdac_chain_END d fuel l : bdac_chain d fuel l dac_END = Some [].
+Proof. destruct fuel; reflexivity. Qed.
+Lemma bdac_chain_bounded_END d k l : bdac_chain_bounded d k l dac_END = Some [].
+Proof. destruct k; reflexivity. Qed.
+
+Section BAccess.
+  Variable nL : nat.
+  Variable seqs : list (list N).
+  Hypothesis Hwf : wf_seqs nL seqs.
+  Hypothesis HnL : N.of_nat nL < dac_U32.
+  Hypothesis Hbound : LI seqs nL + 1 < dac_U32.
+  Variables (P : list (list N)) (s : list N) (R : list (list N)).
+  Hypothesis Hsplit : seqs = P ++ s :: R.
+  Let d := the_bdac seqs nL.
+
+  Lemma bs_len : (1 <= length s <= nL)%nat.
+  Proof.
+    clear HnL Hbound. unfold wf_seqs in Hwf. rewrite Hsplit in Hwf. apply Forall_app in Hwf. destruct Hwf as [_ H].
+    inversion H; subst. assumption.
+  Qed.
+
+  Lemma bcntP_le k : (cnt k P + (if longer k s then 1 else 0) <= sz seqs k)%nat.
+  Proof. clear HnL Hbound Hwf. unfold sz. rewrite Hsplit, cnt_app, cnt_cons. lia. Qed.
+
+  Lemma bcnt0P : cnt 0 P = length P.
+  Proof.
+    clear HnL Hbound. unfold wf_seqs in Hwf. rewrite Hsplit in Hwf. apply Forall_app in Hwf. destruct Hwf as [H _].
+    apply (cnt0 nL P H).
+  Qed.
+
+  Lemma bsym_at j : (j < length s)%nat ->
+    dac_nth (b_levels d) (LI seqs j + N.of_nat (cnt j P)) = Some (nth j s 0).
+  Proof. intros Hj. exact (sym_at nL seqs 0 Hwf HnL Hbound P s R Hsplit j Hj). Qed.
+
+  Lemma bbit_at j : (j < length s)%nat ->
+    dac_nth (b_bits d) (LI seqs j + N.of_nat (cnt j P)) = Some (longer (S j) s).
+  Proof.
+    intros Hj. pose proof bs_len. unfold d, the_bdac. cbn [b_bits].
+    apply (cat_nth0 (contbits seqs) j nL (contbits P j) (longer (S j) s) (contbits R j)); [lia| |].
+    - rewrite Hsplit, contbits_app, contbits_cons, (longer_true j s Hj). reflexivity.
+    - rewrite (cat_offset seqs (contbits seqs) j (contbits_length seqs)). unfold lenN. rewrite contbits_length. reflexivity.
+  Qed.
+
+  Lemma brank_at j : (j < length s)%nat ->
+    exists r, dac_rank1 (b_bits d) (LI seqs j + N.of_nat (cnt j P)) = Some r /\
+              r = RL seqs j + N.of_nat (cnt (S j) P) + (if longer (S j) s then 1 else 0) /\
+              r <= LI seqs nL.
+  Proof.
+    intros Hj. pose proof bs_len as Hs. unfold d, the_bdac. cbn [b_bits]. unfold dac_rank1.
+    assert (Hlen : lenN (cat (contbits seqs) nL) = LI seqs nL).
+    { apply (cat_offset seqs (contbits seqs) _ (contbits_length seqs)). }
+    rewrite Hlen.
+    pose proof (bcntP_le j) as Hle. rewrite (longer_true j s Hj) in Hle.
+    pose proof (LI_S seqs j) as HS. pose proof (LI_mono seqs (S j) nL ltac:(lia)) as Hm.
+    replace (LI seqs j + N.of_nat (cnt j P) <? LI seqs nL) with true by (symmetry; apply N.ltb_lt; lia).
+    eexists. split; [reflexivity|]. split.
+    - replace (S (N.to_nat (LI seqs j + N.of_nat (cnt j P)))) with (length (cat (contbits seqs) j) + S (cnt j P))%nat.
+      2: { pose proof (cat_offset seqs (contbits seqs) j (contbits_length seqs)) as Ho. unfold lenN in Ho. lia. }
+      rewrite <- (app_nil_r (cat (contbits seqs) nL)).
+      rewrite cat_firstn by (rewrite ?contbits_length; unfold sz in Hle; lia).
+      rewrite Hsplit at 2. rewrite contbits_app, contbits_cons, (longer_true j s Hj). cbn [app].
+      rewrite <- (contbits_length P j), firstn_mid.
+      rewrite !dac_count_app, count_contbits. unfold RL. cbn [dac_count]. lia.
+    - rewrite <- Hlen. etransitivity; [apply dac_count_le|].
+      unfold lenN. rewrite firstn_length. lia.
+  Qed.
+
+  Lemma baccess_loop_spec : forall fuel j, (j < length s)%nat -> (nL <= fuel + j + 1)%nat ->
+    bdac_access_loop d fuel (N.of_nat j) (LI seqs j + N.of_nat (cnt j P)) (firstn (S j) s) = Some s.
+  Proof.
+    pose proof bs_len as Hs.
+    induction fuel as [|f IH]; intros j Hj Hfuel; rewrite bdac_access_loop_eq; rewrite (bbit_at j Hj); cbn [dac_bind].
+    - rewrite (longer_false (S j) s) by lia. rewrite firstn_all2 by lia. reflexivity.
+    - destruct (longer (S j) s) eqn:E.
+      2: { apply Nat.ltb_ge in E. rewrite firstn_all2 by lia. reflexivity. }
+      apply Nat.ltb_lt in E.
+      destruct (brank_at j Hj) as (r & Hr & Hrv & Hrb). rewrite Hr. cbn [dac_bind].
+      rewrite (longer_true (S j) s E) in Hrv.
+      change (b_rankLevels d) with (map (RL seqs) (seq 0 nL)).
+      rewrite (mapseq_nth (RL seqs) j nL) by (reflexivity || lia). cbn [dac_bind].
+      pose proof (RL_le_LI seqs j) as HRL.
+      pose proof (bcntP_le (S j)) as Hle. rewrite (longer_true (S j) s E) in Hle.
+      pose proof (LI_S seqs (S j)) as HS. pose proof (LI_mono seqs (S (S j)) nL ltac:(lia)) as Hm.
+      rewrite (dac_sub32_small r (RL seqs j)) by lia.
+      replace (r - RL seqs j) with (N.of_nat (cnt (S j) P) + 1) by lia.
+      rewrite (dac_add32_small (N.of_nat j) 1) by lia.
+      replace (N.of_nat j + 1) with (N.of_nat (S j)) by lia.
+      change (b_levelsIndex d) with (map (LI seqs) (seq 0 (S nL))).
+      rewrite (mapseq_nth (LI seqs) (S j) (S nL)) by (reflexivity || lia). cbn [dac_bind].
+      rewrite dac_add32_small by lia. rewrite dac_sub32_small by lia.
+      replace (LI seqs (S j) + (N.of_nat (cnt (S j) P) + 1) - 1) with (LI seqs (S j) + N.of_nat (cnt (S j) P)) by lia.
+      rewrite (bsym_at (S j) E). cbn [dac_bind].
+      change (b_nLevels d) with (N.of_nat nL).
+      replace (N.of_nat (S j) <? N.of_nat nL) with true by (symmetry; apply N.ltb_lt; lia).
+      rewrite (firstn_S_nth s (S j) 0 E).
+      rewrite dac_sub32_small by lia.
+      destruct (N.eqb_spec (N.of_nat (S j)) (N.of_nat nL - 1)) as [Heq|Hneq].
+      + rewrite firstn_all2 by lia. reflexivity.
+      + apply IH; lia.
+  Qed.
+
+  Theorem baccess_at : bdac_access d (lenN P + 1) = Some s.
+  Proof.
+    pose proof bs_len as Hs. unfold bdac_access.
+    pose proof (bcntP_le 0) as Hle. rewrite (longer_true 0 s) in Hle by lia. rewrite bcnt0P in Hle.
+    pose proof (LI_S seqs 0) as HS. pose proof (LI_mono seqs 1 nL ltac:(lia)) as Hm.
+    assert (H0 : LI seqs 0 = 0) by reflexivity.
+    rewrite dac_sub32_small by (unfold lenN; lia).
+    replace (lenN P + 1 - 1) with (LI seqs 0 + N.of_nat (cnt 0 P)) by (rewrite bcnt0P; unfold lenN; lia).
+    rewrite (bsym_at 0) by lia. cbn [dac_bind].
+    change (b_nLevels d) with (N.of_nat nL).
+    replace (0 <? N.of_nat nL) with true by (symmetry; apply N.ltb_lt; lia).
+    rewrite Nat2N.id.
+    replace [nth 0 s 0] with (firstn 1 s) by (destruct s; [cbn in Hs; lia|reflexivity]).
+    apply (baccess_loop_spec nL 0); lia.
+  Qed.
+
+  Lemma baccess_next_at j : (j < length s)%nat ->
+    bdac_access_next d (N.of_nat j) (LI seqs j + N.of_nat (cnt j P) + 1)
+    = Some (nth j s 0, if longer (S j) s then LI seqs (S j) + N.of_nat (cnt (S j) P) + 1 else dac_END).
+  Proof.
+    intros Hj. pose proof bs_len as Hs. unfold bdac_access_next.
+    pose proof (bcntP_le j) as Hle0. rewrite (longer_true j s Hj) in Hle0.
+    pose proof (LI_S seqs j) as HS0. pose proof (LI_mono seqs (S j) nL ltac:(lia)) as Hm0.
+    rewrite dac_sub32_small by lia.
+    replace (LI seqs j + N.of_nat (cnt j P) + 1 - 1) with (LI seqs j + N.of_nat (cnt j P)) by lia.
+    rewrite (bsym_at j Hj). cbn [dac_bind].
+    change (b_nLevels d) with (N.of_nat nL). rewrite dac_sub32_small by lia.
+    destruct (N.eqb_spec (N.of_nat j) (N.of_nat nL - 1)) as [Heq|Hneq].
+    - rewrite (longer_false (S j) s) by lia. reflexivity.
+    - rewrite (bbit_at j Hj). cbn [dac_bind].
+      destruct (longer (S j) s) eqn:E; [|reflexivity].
+      apply Nat.ltb_lt in E.
+      destruct (brank_at j Hj) as (r & Hr & Hrv & Hrb). rewrite Hr. cbn [dac_bind].
+      rewrite (longer_true (S j) s E) in Hrv.
+      change (b_rankLevels d) with (map (RL seqs) (seq 0 nL)).
+      rewrite (mapseq_nth (RL seqs) j nL) by (reflexivity || lia). cbn [dac_bind].
+      change (b_levelsIndex d) with (map (LI seqs) (seq 0 (S nL))).
+      replace (N.of_nat j + 1) with (N.of_nat (S j)) by lia.
+      rewrite (mapseq_nth (LI seqs) (S j) (S nL)) by (reflexivity || lia). cbn [dac_bind].
+      pose proof (RL_le_LI seqs j) as HRL.
+      pose proof (bcntP_le (S j)) as Hle. rewrite (longer_true (S j) s E) in Hle.
+      pose proof (LI_S seqs (S j)) as HS. pose proof (LI_mono seqs (S (S j)) nL ltac:(lia)) as Hm.
+      rewrite (dac_sub32_small r (RL seqs j)) by lia.
+      rewrite dac_add32_small by lia. do 2 f_equal. lia.
+  Qed.
+
+  Lemma bpos_not_END j : (j < length s)%nat -> (LI seqs j + N.of_nat (cnt j P) + 1 =? dac_END) = false.
+  Proof.
+    intros Hj. pose proof bs_len as Hs.
+    pose proof (bcntP_le j) as Hle0. rewrite (longer_true j s Hj) in Hle0.
+    pose proof (LI_S seqs j) as HS0. pose proof (LI_mono seqs (S j) nL ltac:(lia)) as Hm0.
+    apply N.eqb_neq. unfold dac_END. lia.
+  Qed.
+
+  Lemma bchain_at : forall fuel j, (j < length s)%nat -> (length s <= fuel + j)%nat ->
+    bdac_chain d fuel (N.of_nat j) (LI seqs j + N.of_nat (cnt j P) + 1) = Some (skipn j s).
+  Proof.
+    induction fuel as [|f IH]; intros j Hj Hf; [lia|].
+    cbn [bdac_chain]. rewrite (bpos_not_END j Hj), (baccess_next_at j Hj). cbn [dac_bind].
+    replace (N.of_nat j + 1) with (N.of_nat (S j)) by lia.
+    rewrite (skipn_nth_cons s j 0 Hj).
+    destruct (longer (S j) s) eqn:E.
+    - apply Nat.ltb_lt in E. rewrite IH by lia. reflexivity.
+    - apply Nat.ltb_ge in E. rewrite bdac_chain_END. cbn [dac_bind]. rewrite (skipn_all2 s) by lia. reflexivity.
+  Qed.
+
+  Lemma bchain_bounded_at : forall k j, (j < length s)%nat -> (length s <= k + j)%nat ->
+    bdac_chain_bounded d k (N.of_nat j) (LI seqs j + N.of_nat (cnt j P) + 1) = Some (skipn j s).
+  Proof.
+    induction k as [|k IH]; intros j Hj Hf; [lia|].
+    cbn [bdac_chain_bounded]. rewrite (bpos_not_END j Hj), (baccess_next_at j Hj). cbn [dac_bind].
+    replace (N.of_nat j + 1) with (N.of_nat (S j)) by lia.
+    rewrite (skipn_nth_cons s j 0 Hj).
+    destruct (longer (S j) s) eqn:E.
+    - apply Nat.ltb_lt in E. rewrite IH by lia. reflexivity.
+    - apply Nat.ltb_ge in E. rewrite bdac_chain_bounded_END. cbn [dac_bind]. rewrite (skipn_all2 s) by lia. reflexivity.
+  Qed.
+
+  Theorem bchain_from_start fuel : (nL <= fuel)%nat ->
+    bdac_chain d fuel 0 (lenN P + 1) = Some s /\ bdac_chain_bounded d fuel 0 (lenN P + 1) = Some s.
+  Proof.
+    intros Hf. pose proof bs_len as Hs.
+    replace (lenN P + 1) with (LI seqs 0 + N.of_nat (cnt 0 P) + 1)
+      by (rewrite bcnt0P; unfold lenN; change (LI seqs 0) with 0; lia).
+    split; [apply (bchain_at fuel 0)|apply (bchain_bounded_at fuel 0)]; lia.
+  Qed.
+End BAccess.
+
+Lemma bdac_wf_sound seqs nL : bdac_wf seqs nL = true ->
+  seqs <> [] /\ wf_seqs nL seqs /\ Forall (Forall (fun x => x < 256)) seqs /\
+  N.of_nat nL + 1 < dac_U32 /\ LI seqs nL + 1 < dac_U32.
+Proof.
+  unfold bdac_wf. rewrite !andb_true_iff. intros [[[Hne Hall] Hlen] Hmax].
+  apply N.ltb_lt in Hlen, Hmax.
+  assert (Hne' : seqs <> []).
+  { intros ->. cbn in Hne. discriminate. }
+  rewrite forallb_forall in Hall.
+  repeat split.
+  - exact Hne'.
+  - apply Forall_forall. intros s Hs. specialize (Hall s Hs).
+    rewrite !andb_true_iff in Hall. destruct Hall as [[H0 H1] _].
+    apply negb_true_iff, N.eqb_neq in H0. apply N.leb_le in H1. unfold lenN in *. lia.
+  - apply Forall_forall. intros s Hs. specialize (Hall s Hs).
+    rewrite !andb_true_iff in Hall. destruct Hall as [_ H2].
+    apply (forallb_Forall _ (fun x => x < 256)) in H2; [exact H2|]. intros x Hx. apply N.ltb_lt. exact Hx.
+  - exact Hmax.
+  - unfold dac_flatten, lenN in Hlen. rewrite flatten_length in Hlen.
+    pose proof (sum_cnt_le seqs nL) as Hs. unfold LI, sz.
+    destruct seqs as [|s0 r]; [congruence|]. cbn [length] in Hlen. lia.
+Qed.
+
+Lemma wf_seqs_nL_pos nL seqs : seqs <> [] -> wf_seqs nL seqs -> (1 <= nL)%nat.
+Proof. intros Hne Hwf. destruct seqs as [|s r]; [congruence|]. inversion Hwf; subst. lia. Qed.
+
+(* the object built from the arrangement HASHUFFDAC computes *)
+Theorem bdac_of_seqs_spec seqs nL : bdac_wf seqs nL = true -> bdac_of_seqs seqs nL = Some (the_bdac seqs nL).
+Proof.
+  intros H. destruct (bdac_wf_sound _ _ H) as (Hne & Hwf & Hsym & HnL & Hb).
+  unfold bdac_of_seqs. rewrite bdac_layout_spec.
+  rewrite (cat_offset seqs (level seqs) nL (level_length seqs)).
+  rewrite <- (app_nil_r (map (LI seqs) (seq 0 nL))), <- (app_nil_r (map (fun j => dac_count (contbits seqs j)) (seq 0 nL))).
+  apply bdac_make_spec; [apply (wf_seqs_nL_pos nL seqs Hne Hwf)|exact Hb].
+Qed.
+
+Theorem bdac_access_spec seqs nL d i :
+  bdac_wf seqs nL = true -> bdac_of_seqs seqs nL = Some d -> 1 <= i <= lenN seqs ->
+  bdac_access d i = Some (nth (N.to_nat (i - 1)) seqs []).
+Proof.
+  intros H Hd Hi. rewrite (bdac_of_seqs_spec _ _ H) in Hd. injection Hd as <-.
+  destruct (bdac_wf_sound _ _ H) as (Hne & Hwf & Hsym & HnL & Hb).
+  destruct (seqs_split_at seqs i Hi) as (P & R & E & ->).
+  apply (baccess_at nL seqs Hwf ltac:(lia) Hb P _ R E).
+Qed.
+
+(* HashDAC::scmp's walk: id = pos + 1; level = 0; while (id != -1) { access_next(level, &id); level++ } *)
+Theorem bdac_access_next_chain seqs nL d i fuel :
+  bdac_wf seqs nL = true -> bdac_of_seqs seqs nL = Some d -> 1 <= i <= lenN seqs -> (nL <= fuel)%nat ->
+  bdac_chain d fuel 0 i = Some (nth (N.to_nat (i - 1)) seqs []) /\
+  bdac_chain_bounded d fuel 0 i = Some (nth (N.to_nat (i - 1)) seqs []).
+Proof.
+  intros H Hd Hi Hf. rewrite (bdac_of_seqs_spec _ _ H) in Hd. injection Hd as <-.
+  destruct (bdac_wf_sound _ _ H) as (Hne & Hwf & Hsym & HnL & Hb).
+  destruct (seqs_split_at seqs i Hi) as (P & R & E & ->).
+  apply (bchain_from_start nL seqs Hwf ltac:(lia) Hb P _ R E fuel Hf).
+Qed.
+
+Theorem bdac_load_save d rest : bdac_obj_wf d = true -> bdac_load (bdac_save d ++ rest) = Some (d, rest).
+Proof.
+  unfold bdac_obj_wf. rewrite !andb_true_iff.
+  intros [[[[[[[[Htam Hnl] Hlil] Hli] Hrll] Hrl] Hlvl] Hlv] Hbits].
+  apply N.ltb_lt in Htam, Hnl, Hbits. apply N.eqb_eq in Hlil, Hrll, Hlvl.
+  apply (forallb_Forall _ (fun x => x < dac_U32)) in Hli; [|intros x Hx; apply N.ltb_lt; exact Hx].
+  apply (forallb_Forall _ (fun x => x < dac_U32)) in Hrl; [|intros x Hx; apply N.ltb_lt; exact Hx].
+  unfold bdac_save, bdac_load. repeat rewrite <- app_assoc.
+  assert (H32 : 256 ^ N.of_nat 4 = dac_U32) by reflexivity.
+  rewrite (dac_rd_le 4 (b_tamCode d)) by (rewrite H32; exact Htam). cbn [dac_bind].
+  rewrite (dac_rd_le 4 (b_nLevels d)) by (rewrite H32; lia). cbn [dac_bind].
+  rewrite dac_add32_small by exact Hnl.
+  rewrite (dac_rd_u32s_app (b_levelsIndex d)) by (assumption || (symmetry; assumption)). cbn [dac_bind].
+  rewrite dac_take_app by exact Hlvl. cbn [dac_bind].
+  rewrite (dac_rd_u32s_app (b_rankLevels d)) by (assumption || (symmetry; assumption)). cbn [dac_bind].
+  rewrite dac_rg_load_save by exact Hbits. cbn [dac_bind].
+  destruct d; reflexivity.
+Qed.
+
+Theorem bdac_build_obj_wf seqs nL : bdac_wf seqs nL = true -> bdac_obj_wf (the_bdac seqs nL) = true.
+Proof.
+  intros H. destruct (bdac_wf_sound _ _ H) as (Hne & Hwf & Hsym & HnL & Hb).
+  pose proof (wf_seqs_nL_pos nL seqs Hne Hwf) as Hn1.
+  unfold bdac_obj_wf.
+  change (b_tamCode (the_bdac seqs nL)) with (LI seqs nL).
+  change (b_nLevels (the_bdac seqs nL)) with (N.of_nat nL).
+  change (b_levelsIndex (the_bdac seqs nL)) with (map (LI seqs) (seq 0 (S nL))).
+  change (b_rankLevels (the_bdac seqs nL)) with (map (RL seqs) (seq 0 nL)).
+  change (b_levels (the_bdac seqs nL)) with (cat (level seqs) nL).
+  change (b_bits (the_bdac seqs nL)) with (cat (contbits seqs) nL).
+  rewrite !andb_true_iff. repeat split.
+  - apply N.ltb_lt. lia.
+  - apply N.ltb_lt. lia.
+  - apply N.eqb_eq. unfold lenN. rewrite map_length, seq_length. lia.
+  - apply (forallb_of_Forall _ (fun x => x < dac_U32)); [intros x Hx; apply N.ltb_lt; exact Hx|].
+    apply Forall_forall. intros x Hx. apply in_map_iff in Hx. destruct Hx as (k & <- & Hk). apply in_seq in Hk.
+    pose proof (LI_mono seqs k nL ltac:(lia)). lia.
+  - apply N.eqb_eq. unfold lenN. rewrite map_length, seq_length. reflexivity.
+  - apply (forallb_of_Forall _ (fun x => x < dac_U32)); [intros x Hx; apply N.ltb_lt; exact Hx|].
+    apply Forall_forall. intros x Hx. apply in_map_iff in Hx. destruct Hx as (k & <- & Hk). apply in_seq in Hk.
+    pose proof (RL_le_LI seqs k). pose proof (LI_mono seqs k nL ltac:(lia)). lia.
+  - apply N.eqb_eq. apply (cat_offset seqs (level seqs) nL (level_length seqs)).
+  - apply (forallb_of_Forall _ (fun x => x < 2 ^ 8)); [intros x Hx; apply N.ltb_lt; exact Hx|].
+    apply level_syms_bound. exact Hsym.
+  - apply N.ltb_lt. rewrite (cat_offset seqs (contbits seqs) nL (contbits_length seqs)).
+    assert (dac_U32 < 2 ^ 64) by (vm_compute; reflexivity). lia.
+Qed.
+
+Theorem bdac_build_load_save seqs nL d rest :
+  bdac_wf seqs nL = true -> bdac_of_seqs seqs nL = Some d -> bdac_load (bdac_save d ++ rest) = Some (d, rest).
+Proof.
+  intros H Hd. rewrite (bdac_of_seqs_spec _ _ H) in Hd. injection Hd as <-.
+  apply bdac_load_save, bdac_build_obj_wf, H.
+Qed.
